@@ -118,7 +118,7 @@ def run(ctx):
     R_reorder = ctx.rule("C08.no-reordering-ops", "no order-disturbing Vec operation (push without sort, swap_remove, reverse, unstable sort, in-place priority write) on the archive list", floor=4)
     R_rebuild = ctx.rule("C08.map-rebuilt-after-mutation", "every path from a mutation of the archive list to a success return passes rebuild_file_map (or clears the map with the list)", floor=6)
     R_first = ctx.rule("C08.map-first-wins", "rebuild_file_map walks the list front-to-back inserting only absent keys (or back-to-front overwriting)", floor=1)
-    R_key = ctx.rule("C08.same-key-function", "map build and every lookup normalise names through the same call chain", floor=4)
+    R_key = ctx.rule("C08.same-key-function", "map build and every lookup normalise names through the same call chain", floor=2)
     R_apply = ctx.rule("C08.patch-verified-before-and-after", "apply_patch: every success path passes a ?-checked verify_base and a ?-checked verify_patched of the returned bytes", floor=2)
     R_digest = ctx.rule("C08.verifier-compares-right-digest", "verify_base/verify_patched hash their argument and fail on inequality with md5_before/md5_after respectively", floor=2)
     R_drop = ctx.rule("C08.no-patch-dropped", "read_patched_file never discards a patch or base whose read/parse failed on a path that still returns Ok", floor=1)
@@ -431,6 +431,33 @@ def run(ctx):
         else:
             ctx.bad(R_key, "%s|%s|key-chain" % (p, m), "%s:%d" % (FILE, ln), "lookup key built by %s but the map is built with %s" % (list(ch), list(ref or ())),
                     "a name present in the chain would be reported missing (or resolve differently) for some spellings")
+
+    # the map only knows listed names: a by-name lookup also asks the archives the map did not credit with the name
+    R_ask = ctx.rule("C08.lookup-asks-unlisted-archives", "every read lookup of the name map is accompanied, in the same function, by a search over the archive list that asks each higher-priority archive for the file itself (an archive without a complete listfile still serves its files by name and still overrides)", floor=1)
+    for (p, m, ln), ch in sorted(chains.items()):
+        if p == rebuild_path or m not in ("get", "contains_key"):
+            continue
+        f = mpq.fns.get(p)
+        body = hirq.body_of(f)
+        asks = None
+        for n in hirq.walk(body):
+            if n.get("k") == "mcall" and n["m"] in ("position", "find", "any", "find_map", "rposition", "filter", "take_while") and re.search(r"self\.archives", hirq.render(n["recv"])) and n.get("args"):
+                if any(c.get("k") == "mcall" and c["m"] in ("find_file", "has_file", "contains_file", "find_file_info") for c in hirq.walk(n["args"][0])):
+                    asks = n
+        if asks is None:
+            for n in hirq.find(body, "for") if hasattr(hirq, "find") else ():
+                if re.search(r"self\.archives", hirq.render(n.get("iter") or n.get("e") or {})) and any(c.get("k") == "mcall" and c["m"] in ("find_file", "has_file") for c in hirq.walk(n.get("body") or {})):
+                    asks = n
+        if asks is not None:
+            # the search must not be limited to archives *below* the listed one: the slice, if any, ends at the listed index
+            r_ = hirq.render(asks["recv"]) if asks.get("recv") is not None else ""
+            if re.search(r"self\.archives\[\(?[^.\]]+\.\.\s*\)?\]", r_) or re.search(r"\.skip\(", r_):
+                ctx.bad(R_ask, "%s|asks-lower-priority-only" % p.split("::")[-1], "%s:%d" % (FILE, ln), "the archive search covers `%s`: the archives *after* the listed one" % r_[:80], "an unlisted file in a higher-priority archive is still shadowed by the listed lower-priority one")
+            else:
+                ctx.ok(R_ask, {"lookup": p.split("::")[-1], "asks": r_[:100]})
+        else:
+            ctx.bad(R_ask, "%s|%s|map-only" % (p.split("::")[-1], m), "%s:%d" % (FILE, ln), "`file_map.%s` decides the lookup alone: no archive is asked for the file" % m,
+                    "the map is built from listfiles: a file in an archive without a (complete) listfile is reported absent, and a higher-priority archive that holds the name unlisted does not override the listed lower-priority one")
 
     # apply_patch
     ap = mpq.fns.get("wow_mpq::patch::apply::apply_patch")
